@@ -65,6 +65,21 @@ pub fn run_e2e(id: &str, cases: &[e2e::Case], rep: &mut Report, sanitize: bool, 
                         }
                         if r.stage == "run" {
                             problems.extend(e2e::compare(&r.transcript, &exp));
+                            // the same headers read by a C++ compiler: result structs must keep their size and flag offset
+                            std::fs::write(dir.join("layout.cpp"), e2e::cpp_layout_probe(case)).unwrap();
+                            let (ok, _o, e) = util::run(std::process::Command::new("g++").args(["-std=c++17", "-w", "-I", ".", "layout.cpp", "-o", "layout_cpp"]).current_dir(&dir));
+                            if !ok {
+                                problems.push(format!("the C headers do not compile when included from C++: {}", e.lines().filter(|l| l.contains("error")).take(2).collect::<Vec<_>>().join(" | ")));
+                            } else {
+                                let (_ok, o, _e) = util::run(std::process::Command::new(dir.join("layout_cpp")).current_dir(&dir));
+                                let cpp: Vec<&str> = o.lines().filter(|l| l.starts_with("rs ")).collect();
+                                let c: Vec<&String> = r.transcript.iter().take_while(|l| *l != "--").filter(|l| l.starts_with("rs ")).collect();
+                                for (a, b) in c.iter().zip(cpp.iter()) {
+                                    if a.as_str() != *b {
+                                        problems.push(format!("a result struct has a different size / flag offset for a C++ compiler: C `{a}`, C++ `{b}`"));
+                                    }
+                                }
+                            }
                         }
                         out.lock().unwrap().push(E2eOutcome { case_idx: k, problems, stage: r.stage, transcript: r.transcript, driver: drv });
                     }
@@ -172,7 +187,7 @@ pub fn main(args: &[String]) {
     let mut k = 0;
     while cases.len() < n && k < n * 3 {
         k += 1;
-        let m = Gen::valid_module(&mut rng, prof);
+        let m = Gen::valid_module_avoiding(&mut rng, prof, crate::tygen::Avoid { more_zst: true, opt_unit_write: true, ..Default::default() });
         let case = e2e::make_case(m, cases.len(), &mut rng);
         let o = tool::run_backend(&case.rust(), "c");
         if !o.ok() {
